@@ -520,11 +520,41 @@ def _allclose(a, b, rtol=1e-05, atol=1e-08, equal_nan=False):
     return _all(_isclose(a, b, rtol, atol))
 
 
+def _digitize(x, bins, right=False):
+    """reference model of np.digitize for monotonically increasing or decreasing bins"""
+    b = list(_plain(_np.asarray(bins, dtype=object)).ravel())
+    inc = True
+    for i in range(len(b) - 1):
+        if bool(b[i] > b[i + 1]):
+            inc = False
+            break
+    if not inc:
+        for i in range(len(b) - 1):
+            if bool(b[i] < b[i + 1]):
+                raise ValueError('bins must be monotonically increasing or decreasing')
+
+    def one(v):
+        if inc:
+            k = 0
+            while k < len(b) and (bool(b[k] < v) if right else bool(b[k] <= v)):
+                k += 1
+            return k
+        k = 0
+        while k < len(b) and (bool(b[k] >= v) if right else bool(b[k] > v)):
+            k += 1
+        return k
+    xs = _plain(_np.asarray(x, dtype=object))
+    out = _np.empty(xs.shape, dtype=_np.intp)
+    for idx in _np.ndindex(xs.shape):
+        out[idx] = one(xs[idx])
+    return out if out.shape else int(out[()])
+
+
 HANDLERS = {
     _np.searchsorted: _searchsorted, _np.where: _where, _np.select: _select, _np.clip: _clip, _np.interp: _interp,
     _np.isclose: _isclose, _np.allclose: _allclose, _np.polyfit: _polyfit, _np.any: _any, _np.all: _all,
     _np.count_nonzero: _count_nonzero, _np.unique: _unique, _np.sort: _sort, _np.max: _amax, _np.min: _amin,
-    _np.amax: _amax, _np.amin: _amin, _np.array_equal: _array_equal, _np.nan_to_num: _nan_to_num,
+    _np.amax: _amax, _np.amin: _amin, _np.array_equal: _array_equal, _np.nan_to_num: _nan_to_num, _np.digitize: _digitize,
 }
 
 
